@@ -4,7 +4,6 @@ import (
 	"context"
 	"encoding/json"
 	"fmt"
-	"path/filepath"
 	"sync"
 	"time"
 
@@ -136,7 +135,7 @@ func newSessionWith(client *stubClient, dir string, rootDir string, initOpts any
 	s.srv.SetClient(s.client)
 	params := &protocol.InitializeParams{InitializationOptions: initOpts}
 	if rootDir != "" {
-		params.RootURI = protocol.DocumentURI("file://" + filepath.ToSlash(rootDir)) //nolint
+		params.RootURI = fileURI(rootDir) //nolint
 	}
 	if caps {
 		params.Capabilities.Workspace = &protocol.WorkspaceClientCapabilities{Configuration: true}
